@@ -36,6 +36,12 @@ def clf_zoo():
         "Sk-SGD": dict(mk=lambda **k: SklearnClassifier(SGDClassifier(loss="log_loss", random_state=0), **k), self_proba=True, partial=True),
         "SlidingWindow-PWC": dict(mk=lambda **k: SlidingWindowClassifier(ParzenWindowClassifier(metric_dict={"gamma": 0.7}, **k),
                                                                          window_size=6, **k), self_proba=True, window=True, c12=False),
+        # multi-annotator classifiers: the label vector is given by two annotators (second one with additional gaps)
+        "ALR": dict(mk=lambda **k: AnnotatorLogisticRegression(n_annotators=2, **k), self_proba=True, multi=True, c12=False, only=("C11",)),
+        "AnnotEnsemble-soft": dict(mk=lambda **k: AnnotatorEnsembleClassifier(
+            estimators=[("a", ParzenWindowClassifier(metric_dict={"gamma": 0.7}, **{q: v for q, v in k.items() if q != "cost_matrix"})),
+                        ("b", ParzenWindowClassifier(metric_dict={"gamma": 0.7}, **{q: v for q, v in k.items() if q != "cost_matrix"}))],
+            voting="soft", **k), self_proba=True, multi=True, c12=False, only=("C11",)),
     }
     return Z
 
@@ -68,10 +74,12 @@ def cases(prop, tier, seed):
     out = []
     reps = 10 if tier == "quick" else 60
     if prop in ("C11", "C12", "C13", "C09"):
-        for name in clf_zoo():
+        for name, zz in clf_zoo().items():
+            if zz.get("only") and prop not in zz["only"]:
+                continue
             for t in range(reps):
                 out.append(dict(kind=prop, model=name, dseed=int(rs.randint(1 << 30)), pat=t % 5, weights=bool(t % 2), cl=t % len(CLASS_LISTS),
-                                cost=bool((t // 2) % 2), n=int(rs.randint(0 if prop == "C11" else 4, 11)), t=t, key=[prop, name, t]))
+                                cost=bool((t // 2) % 2), n=int(rs.randint(0 if (prop == "C11" and t % 10 < 5) else 4, 11)), t=t, key=[prop, name, t]))
     if prop in ("C12", "C13", "C15"):
         for name in reg_zoo():
             for t in range(reps):
@@ -117,7 +125,18 @@ def ml_for(classes):
 
 
 def fit(m, X, y, w):
+    if type(m).__name__ in ("AnnotatorLogisticRegression", "AnnotatorEnsembleClassifier"):
+        y = np.asarray(y)
+        if y.dtype.kind in "US":
+            y = y.astype("U8")                         # wide enough for the sentinel: no silent truncation in the harness
+        y2 = y.copy()
+        if len(y2) > 1:
+            y2[::2] = m.missing_label                  # the second annotator skips every other sample
+        y = np.column_stack([y, y2]) if len(y) else np.empty((0, 2), dtype=y.dtype)
+        w = None if w is None else np.column_stack([w, w])
     return m.fit(X, y, sample_weight=w) if w is not None else m.fit(X, y)
+
+
 
 
 def run_c11(case, fail):
@@ -137,7 +156,19 @@ def run_c11(case, fail):
     if cm is not None:
         kw["cost_matrix"] = cm
     try:
-        c = fit(z["mk"](**kw), X, y, w)
+        c = z["mk"](**kw)
+        if case["t"] % 10 >= 5 and len(X):
+            # the object has a history: it was fitted before on a fully labeled set of the same width ('after fit on any admissible
+            # training set' does not depend on what the estimator saw earlier)
+            rs0 = np.random.RandomState(case["dseed"] + 5)
+            X0 = rs0.randn(8, 2).round(2)
+            srt0 = sorted(classes)
+            y0 = np.array([srt0[v] for v in rs0.randint(0, 3, size=8)], dtype="U8" if isinstance(classes[0], str) else float)
+            try:
+                fit(c, X0, y0, None)
+            except Exception:
+                c = z["mk"](**kw)
+        c = fit(c, X, y, w)
     except Exception as e:
         if case["model"].startswith("MMC") and "n_samples" in str(e):
             return      # the mixture model needs at least n_components samples: not an admissible training set
